@@ -93,7 +93,7 @@ def run(ctx):
         if not want <= seen[k]:
             raise ToolError(f"vacuity: generator never produced {k} in {sorted(want - seen[k])}")
     write_ndjson(ctx.path("cases.ndjson"), cases)
-    picks = 6 if ctx.quick else 0
+    picks = 6 if ctx.quick else 10
     run_driver(ctx, "c05", ["--in", ctx.path("cases.ndjson"), "--out", ctx.path("res.json"),
                                            "--threads", 8 if ctx.quick else 14, "--picks", picks])
     res = json.load(open(ctx.path("res.json")))
@@ -122,7 +122,7 @@ def run(ctx):
         "tight_memory_evaluations": st.get("tight_memory", 0),
         "resources_exhausted_accepted": st.get("resources_exhausted_accepted", 0),
         "results_matching": st.get("ok", 0),
-        "grid_picks_per_operator": picks or "full grid (3 input batch sizes x 3 session batch sizes x 2 partition counts)",
+        "grid_picks_per_operator": f"{picks} seeded picks per operator out of the 18-point grid (3 input batch sizes x 3 session batch sizes x 2 partition counts; 9 points for single-partition operators)",
     }, assumptions=[
         "join keys are Int32 (dense array-map path), Int64 (hash-map path forced through the perfect-hash options) and Utf8; payload Int32",
         "co-partitioned operators get inputs partitioned by the first key column by the driver (no RepartitionExec); merge-join inputs are sorted by the driver",
